@@ -598,6 +598,8 @@ impl<'a> Parser<'a> {
         let mut duration: ParsedDuration = ParsedDuration::new();
         let mut got_t: bool = false;
         let mut last_had_fraction = false;
+        // Rank of the last unit seen (Y < M < W < D < H < M < S)
+        let mut last_rank: u8 = 0;
 
         loop {
             match self.current {
@@ -620,6 +622,27 @@ impl<'a> Parser<'a> {
                         last_had_fraction = true;
                     }
 
+                    let rank: u8 = match (got_t, self.current) {
+                        (false, 'Y') => 1,
+                        (false, 'M') => 2,
+                        (false, 'W') => 3,
+                        (false, 'D') => 4,
+                        (true, 'H') => 5,
+                        (true, 'M') => 6,
+                        (true, 'S') => 7,
+                        _ => 0,
+                    };
+
+                    if rank != 0 {
+                        if rank <= last_rank {
+                            return Err(
+                                self.parse_error("Duration units out of order".to_string())
+                            );
+                        }
+
+                        last_rank = rank;
+                    }
+
                     if got_t {
                         match self.current {
                             'H' => {
@@ -635,18 +658,7 @@ impl<'a> Parser<'a> {
                                 duration.hours += value;
 
                                 if let Some(fraction) = op_fraction {
-                                    let extra_minutes = fraction * 60_f64;
-                                    let extra_full_minutes: f64 = extra_minutes.trunc();
-                                    duration.minutes += extra_full_minutes as u32;
-                                    let extra_seconds =
-                                        ((extra_minutes - extra_full_minutes) * 60.0).round();
-                                    let extra_full_seconds = extra_seconds.trunc();
-                                    duration.seconds += extra_full_seconds as u32;
-                                    let micro_extra = ((extra_seconds - extra_full_seconds)
-                                        * 1_000_000.0)
-                                        .round()
-                                        as u32;
-                                    duration.microseconds += micro_extra;
+                                    Self::add_duration_fraction(&mut duration, fraction, 3_600.0);
                                 }
                             }
                             'M' => {
@@ -659,22 +671,14 @@ impl<'a> Parser<'a> {
                                 duration.minutes += value;
 
                                 if let Some(fraction) = op_fraction {
-                                    let extra_seconds = fraction * 60_f64;
-                                    let extra_full_seconds = extra_seconds.trunc();
-                                    duration.seconds += extra_full_seconds as u32;
-                                    let micro_extra = ((extra_seconds - extra_full_seconds)
-                                        * 1_000_000.0)
-                                        .round()
-                                        as u32;
-                                    duration.microseconds += micro_extra;
+                                    Self::add_duration_fraction(&mut duration, fraction, 60.0);
                                 }
                             }
                             'S' => {
                                 duration.seconds = value;
 
                                 if let Some(fraction) = op_fraction {
-                                    duration.microseconds +=
-                                        (fraction * 1_000_000.0).round() as u32;
+                                    Self::add_duration_fraction(&mut duration, fraction, 1.0);
                                 }
                             }
                             _ => {
@@ -727,25 +731,7 @@ impl<'a> Parser<'a> {
                                 duration.weeks = value;
 
                                 if let Some(fraction) = op_fraction {
-                                    let extra_days = fraction * 7_f64;
-                                    let extra_full_days = extra_days.trunc();
-                                    duration.days += extra_full_days as u32;
-                                    let extra_hours = (extra_days - extra_full_days) * 24.0;
-                                    let extra_full_hours = extra_hours.trunc();
-                                    duration.hours += extra_full_hours as u32;
-                                    let extra_minutes =
-                                        ((extra_hours - extra_full_hours) * 60.0).round();
-                                    let extra_full_minutes: f64 = extra_minutes.trunc();
-                                    duration.minutes += extra_full_minutes as u32;
-                                    let extra_seconds =
-                                        ((extra_minutes - extra_full_minutes) * 60.0).round();
-                                    let extra_full_seconds = extra_seconds.trunc();
-                                    duration.seconds += extra_full_seconds as u32;
-                                    let micro_extra = ((extra_seconds - extra_full_seconds)
-                                        * 1_000_000.0)
-                                        .round()
-                                        as u32;
-                                    duration.microseconds += micro_extra;
+                                    Self::add_duration_fraction(&mut duration, fraction, 604_800.0);
                                 }
                             }
                             'D' => {
@@ -757,22 +743,7 @@ impl<'a> Parser<'a> {
 
                                 duration.days += value;
                                 if let Some(fraction) = op_fraction {
-                                    let extra_hours = fraction * 24.0;
-                                    let extra_full_hours = extra_hours.trunc();
-                                    duration.hours += extra_full_hours as u32;
-                                    let extra_minutes =
-                                        ((extra_hours - extra_full_hours) * 60.0).round();
-                                    let extra_full_minutes: f64 = extra_minutes.trunc();
-                                    duration.minutes += extra_full_minutes as u32;
-                                    let extra_seconds =
-                                        ((extra_minutes - extra_full_minutes) * 60.0).round();
-                                    let extra_full_seconds = extra_seconds.trunc();
-                                    duration.seconds += extra_full_seconds as u32;
-                                    let micro_extra = ((extra_seconds - extra_full_seconds)
-                                        * 1_000_000.0)
-                                        .round()
-                                        as u32;
-                                    duration.microseconds += micro_extra;
+                                    Self::add_duration_fraction(&mut duration, fraction, 86_400.0);
                                 }
                             }
                             _ => {
@@ -820,11 +791,28 @@ impl<'a> Parser<'a> {
         };
 
         while let Some(digit) = self.inc().and_then(|ch| ch.to_digit(10)) {
-            value *= 10;
-            value += digit;
+            value = match value.checked_mul(10).and_then(|v| v.checked_add(digit)) {
+                Some(v) => v,
+                None => {
+                    return Err(self.parse_error("Number in duration is too large".to_string()));
+                }
+            };
         }
 
         Ok(value)
+    }
+
+    /// Adds the fraction of a unit (given in seconds) to a duration,
+    /// rounded to the microsecond.
+    fn add_duration_fraction(duration: &mut ParsedDuration, fraction: f64, unit_seconds: f64) {
+        let total = (fraction * unit_seconds * 1_000_000.0).round() as u64;
+        let seconds = total / 1_000_000;
+
+        duration.microseconds += (total % 1_000_000) as u32;
+        duration.seconds += (seconds % 60) as u32;
+        duration.minutes += (seconds / 60 % 60) as u32;
+        duration.hours += (seconds / 3_600 % 24) as u32;
+        duration.days += (seconds / 86_400) as u32;
     }
 
     fn iso_to_ymd(
